@@ -11,3 +11,5 @@ import AriesVerif.C07.Props
 #print axioms Ldp.C07_detached_proof_context
 #print axioms Ldp.Strict.C07_F1_old_accepts
 #print axioms Ldp.Strict.C07_F1_now_rejects
+#print axioms Ldp.expected_of_no_case_variant
+#print axioms Ldp.C07_case_variant_refused
